@@ -63,7 +63,7 @@ def bounded(check, tier):
               "join of every item list of length <=3 over {run-less, '', 'ab', 1-run, 2-run} (and <=4 in thorough)",
               bound="runs<=2, items<=%d" % (4 if deep else 3))
     small = [mk(l) for l in layouts(2, 2)]
-    strs = ["", "x", "xy", "\x1b[1mz"]      # (a str operand is text, whatever it contains)
+    strs = ["", "x", "xy", "\x1b[1mz", "x\ud83d\ude00y", "caf\udce9", "\ufeffab", "\x00"]      # (a str operand is text, whatever it contains)
     for f in small:
         for g in small:
             s.contract_case(F.add, dict(self=f, other=g))
@@ -75,7 +75,7 @@ def bounded(check, tier):
     s.contract_case(F.add, dict(self=mk((1,)), other=3))
     s.contract_case(F.radd, dict(self=mk((1,)), other=None))
     s.contract_case(F.mul, dict(self=mk((1,)), other="a"))
-    pool = [FmtStr(), "", "ab", mk((1,), 65, 3), mk((1, 2), 70, 4), fmtstr(""), "\x1b[31mq"]
+    pool = [FmtStr(), "", "ab", mk((1,), 65, 3), mk((1, 2), 70, 4), fmtstr(""), "\x1b[31mq", "\ufeffx\ud83d\ude00", FmtStr(Chunk("\udce9\ufeff", {"fg": 32}))]
     seps = [mk((1,)), mk(()), mk((1, 1)), fmtstr("")]
     for sep in seps:
         for n in range(0, (5 if deep else 4)):
